@@ -93,13 +93,18 @@ H2_RULE = ("H2 generates multi-client histories (1-3 active 5-tuples on a packet
            "5 peers incl. shared IPs, vetoed peers and IPv6, all credential defects of C03, random timeout/lifetime/MTU configurations, "
            "time steps on both sides of every expiry horizon, TCP-relay mode histories) against the real server; every operation and a "
            "state listing after it are replayed through the Lean model; only the property's view (op kinds / output kinds) is compared; "
+           "before the histories one directed scenario runs the real server on real loopback UDP sockets (two interleaved raw clients sharing channel number and peer, "
+           "one peer): delivery to the owner only, relayed source address, expiry of one allocation while the other client is the last sender, Refresh(0) (real-udp-* monitors); "
            "distinct = distinct (op kind, outcome kinds) pairs observed in the view")
 H2_ASSUME = ["probes are never placed exactly at an expiry instant except via virtual-time sleeps that land on it (timer fires first)",
              "simnet stands in for the OS socket layer; relay address generator and permission handler are harness-controlled inputs"]
 
 
+H2_REAL = ["real-udp-misdelivery", "real-udp-wrong-source", "real-udp-lost", "real-udp-lifecycle", "real-udp-setup"]
+
+
 def h2prop(modules, view, outs, alarms, extra_assume=()):
-    return {"modules": modules, "harnesses": ["H2"], "view": view, "outs": outs, "alarms": alarms, "rule": H2_RULE,
+    return {"modules": modules, "harnesses": ["H2"], "view": view, "outs": outs, "alarms": alarms + H2_REAL, "rule": H2_RULE,
             "trusted_base": H2_TB, "assumptions": H2_ASSUME + list(extra_assume)}
 
 
@@ -121,7 +126,7 @@ PROPS.update({
     "C08": h2prop(["TurnModel.Props.C08"], ["m:bind", "m:cdata", "pdata", "state"], ["resp", "cdat", "topeer"],
                   ["chandata-invalid-number-emitted"]),
     "C19": h2prop(["TurnModel.Props.C19"], ["m:*"], ["resp"], ["response-wrong-source"]),
-    "C15": h2prop(["TurnModel.Props.C15"], ["*"], ["ev", "net"],
+    "C15": h2prop(["TurnModel.Props.C15"], ["*"], ["ev", "net", "dclosed", "cclosed"],
                   ["allocation-count-mismatch", "sockets-left-after-close", "server-close-leaves-control-connections", "even-port-probe-left-open"],
                   ["PARTIAL: goroutines and timers are ghost state in the model (one timer per entity, one reader goroutine per allocation); "
                    "their real existence is observed only through the simnet open/close log and the synctest bubble draining at the end of every history"]),
